@@ -10,7 +10,7 @@ ID = 'C08'
 LEVEL = 'exploration'
 SHARD_TIMEOUT = {'quick': 900, 'thorough': 7200}
 RULE = ('case = one program: IT with a legal (firstcond, mask) [all 15x15 minus the UNPREDICTABLE AL forms], NZCV (all 16), '
-        'then the block\'s 1-4 instructions drawn from {16-bit ALU that would set flags, 32-bit ALU, load, branch in the '
+        'then the block\'s 1-4 instructions drawn from {16-bit ALU that would set flags, 32-bit ALU, MSR APSR_<bits>, Rn, load, branch in the '
         'last slot (B, or BX/BLX/POP/LDR/MOV to the PC into ARM or Thumb code)}, an exception return in the last slot also restores an ITSTATE (landing inside an IT block; the restored value may equal the one the return executes under), optionally an exception at slot k in {SVC, UDF, '
         'alignment-faulting LDR, WFI trapped to Hyp mode by HCR.TWI} with an ARM or Thumb handler '
         'that performs the standard return; EVERY step (incl. entry and return) is compared location-by-location with '
@@ -197,7 +197,14 @@ def run_program(ls, rng, fc, mask, nzcv):
             M.poke(cpu, code + 0x80, b'\x00\xbf' * 16)                            # Thumb NOPs
             kinds.append(bk + ('>arm' if to_arm and bk != 'b' else ''))
         else:
-            k = rng.choice(['a16', 'a16', 'a32', 'ld', 'r32', 'r16'])
+            k = rng.choice(['a16', 'a16', 'a32', 'ld', 'r32', 'r16', 'a32msr'])
+            if k == 'a32msr':
+                # the instruction that WRITES the CPSR from a register inside the block: MSR APSR_nzcvq / _g / _nzcvqg, Rn (the
+                # registers hold random words, so Rn<26:25> and Rn<15:10> - where ITSTATE lives - are arbitrary)
+                w = 0xF3808000 | (rng.randrange(13) << 16) | (rng.choice([0b10, 0b01, 0b11]) << 10)
+                body += (w >> 16).to_bytes(2, 'little') + (w & 0xFFFF).to_bytes(2, 'little')
+                kinds.append(k)
+                continue
             if k in ('r32', 'r16'):
                 # any data-processing / load-store / multiply encoding of the reference tables with random operands (registers
                 # r0-r12): the condition each slot runs under must come from ITSTATE whatever the instruction's own bits say
